@@ -95,7 +95,7 @@ def build_wire(rng, odd=False):
         owner = base if rng.chance(0.6) else rand_labels(rng, pool)
         w.name(owner)
         t = wt(rng, [(1, 4), (28, 2), (16, 5), (13, 1), (5, 3), (2, 2), (12, 1), (15, 3), (6, 2), (33, 2), (41, 1), (99, 1),
-                          (rng.below(65536), 1)])
+                          (46, 2), (47, 2), (48, 1), (43, 1), (65, 1), (64, 1), (65280, 1), (rng.below(65536), 1)])
         types.append(t)
         w.raw(struct.pack("!HHI", t, rng.choice([1, 1, 1, 3, rng.below(65536)]),
                           rng.choice([0, 60, 86400, 0xC00C0000, 0xFFFFFFFF, rng.below(1 << 32)])))
@@ -122,7 +122,14 @@ def build_wire(rng, odd=False):
             w.raw(struct.pack("!HHH", rng.below(65536), rng.below(65536), rng.choice([443, 53, 0xC00C])))
             w.name([rng.choice(pool)] + list(base))
         else:
-            w.raw(rng.bytes(rng.randint(0, 10)))
+            # opaque RDATA (DNSSEC signatures/bitmaps/keys, OPT, SVCB, unknown types): must be forwarded byte-for-byte;
+            # seeded with byte pairs that would resolve as compression pointers to real names in this message
+            d = bytearray(rng.bytes(rng.randint(0, 10)))
+            if ptrish and rng.chance(0.7):
+                for _ in range(rng.randint(1, 2)):
+                    i = rng.randint(0, len(d))
+                    d[i:i] = bytes([0xC0, rng.choice(ptrish)])
+            w.raw(bytes(d))
         struct.pack_into("!H", w.buf, lenpos, len(w.buf) - start)
     return bytes(w.buf), {"types": types}
 
